@@ -208,3 +208,69 @@ Proof.
     apply lookup_In in E2. apply Permutation_sym in HP. eapply Permutation_in in E2; eauto.
     apply In_lookup in E2; auto. congruence.
 Qed.
+
+(** sorting association lists by key: a function of the key/value *set* when keys are distinct *)
+Section SortRestricted.
+  Context {A : Type} (leb : A -> A -> bool).
+  Hypothesis leb_total : forall a b, leb a b = true \/ leb b a = true.
+  Hypothesis leb_trans : forall a b c, leb a b = true -> leb b c = true -> leb a c = true.
+
+  Lemma sorted_perm_eq_on l1 l2 :
+    (forall a b, In a l1 -> In b l1 -> leb a b = true -> leb b a = true -> a = b) ->
+    StronglySorted (lebP leb) l1 -> StronglySorted (lebP leb) l2 -> Permutation l1 l2 -> l1 = l2.
+  Proof.
+    revert l2; induction l1 as [|x r IH]; intros l2 Hanti H1 H2 HP.
+    - apply Permutation_nil in HP. now subst.
+    - destruct l2 as [|y r2]; [apply Permutation_sym, Permutation_nil in HP; discriminate|].
+      inversion H1 as [|? ? H1' Hall1]; inversion H2 as [|? ? H2' Hall2]; subst.
+      assert (Hy : In y (x :: r)) by (eapply Permutation_in; [apply Permutation_sym; exact HP|now left]).
+      assert (Hx : In x (y :: r2)) by (eapply Permutation_in; [exact HP|now left]).
+      assert (x = y).
+      { rewrite Forall_forall in *.
+        destruct Hx as [->|Hx]; [reflexivity|]. destruct Hy as [->|Hy]; [reflexivity|].
+        apply Hanti; [now left|now right| now apply Hall1 | now apply Hall2]. }
+      subst. f_equal. apply IH; auto.
+      + intros a b Ha Hb. apply Hanti; now right.
+      + now apply Permutation_cons_inv in HP.
+  Qed.
+
+  Lemma isort_perm_eq_on l1 l2 :
+    (forall a b, In a l1 -> In b l1 -> leb a b = true -> leb b a = true -> a = b) ->
+    Permutation l1 l2 -> isort leb l1 = isort leb l2.
+  Proof.
+    intros Hanti HP. apply sorted_perm_eq_on; try (apply isort_sorted; assumption).
+    - intros a b Ha Hb. apply Hanti; eapply Permutation_in; try eassumption; apply Permutation_sym, isort_perm.
+    - rewrite <- (isort_perm leb l1), <- (isort_perm leb l2). exact HP.
+  Qed.
+End SortRestricted.
+
+Lemma sort_by_key_perm_eq {A} (m1 m2 : list (str * A)) :
+  NoDup (keys m1) -> Permutation m1 m2 -> sort_by_key m1 = sort_by_key m2.
+Proof.
+  intros Hnd HP. unfold sort_by_key. apply isort_perm_eq_on; auto.
+  - intros a b. apply str_leb_total.
+  - intros a b c. apply str_leb_trans.
+  - intros [ka va] [kb vb] Ha Hb H1 H2. cbn in *.
+    assert (ka = kb) by now apply str_leb_antisym. subst.
+    apply In_lookup in Ha, Hb; auto. congruence.
+Qed.
+
+Lemma sort_by_key_perm {A} (m : list (str * A)) : Permutation m (sort_by_key m).
+Proof. apply isort_perm. Qed.
+
+Lemma filter_perm {A} (f : A -> bool) l1 l2 : Permutation l1 l2 -> Permutation (filter f l1) (filter f l2).
+Proof.
+  induction 1; cbn.
+  - constructor.
+  - destruct (f x); [now constructor|assumption].
+  - destruct (f x), (f y); try constructor; try apply Permutation_refl. 
+  - etransitivity; eassumption.
+Qed.
+
+Lemma mem_str_perm x l1 l2 : Permutation l1 l2 -> mem_str x l1 = mem_str x l2.
+Proof.
+  intros HP. destruct (mem_str x l1) eqn:E1; destruct (mem_str x l2) eqn:E2; try reflexivity.
+  - apply mem_str_In in E1. apply mem_str_false in E2. exfalso. apply E2. eapply Permutation_in; eauto.
+  - apply mem_str_In in E2. apply mem_str_false in E1. exfalso. apply E1.
+    eapply Permutation_in; [apply Permutation_sym; exact HP|exact E2].
+Qed.
